@@ -26,6 +26,16 @@ Theorem C06_within_share_kept_refuted :
   ~ In (keep 1 r) (fst (run c ord sel rf (S fuel) g dr)).
 Proof. exact within_share_kept_refuted. Qed.
 
+(* a metric with a fixed per-metric budget that is within that budget is its own partition with share = its budget; it is
+   NOT always kept entirely either (finding F-C06c, same root cause): metric 1 (size 10, fixed budget 15) is sorted after
+   metric 2, which is over its share of the bucket budget 2, and goes through sampler.sample *)
+Theorem C06_fixed_metric_within_budget_kept_refuted :
+  exists c ord sel rf budget rows dr r,
+  c_fix c = false /\ c_budgets c = true /\ In r rows /\ 0 < r_budget r /\
+  sum_size (filter (fun r' => r_metric r' =? r_metric r) rows) <= r_budget r /\
+  ~ In (keep 1 r) (run_all c ord sel rf budget rows dr).
+Proof. exact fixed_within_budget_kept_refuted. Qed.
+
 (* the partitions really are [plain] with W the sum of their weights whenever SampleBudgets is off *)
 Theorem C06_partitions_plain :
   forall c k d items, rows_ok items ->
